@@ -1059,6 +1059,10 @@ def parse_module(text):
                 i += 1
                 if s.rstrip().endswith("]") and s.lstrip().startswith("switch"):
                     break
+        if (" invoke " in s or s.startswith("invoke ")) and " unwind label " not in s:
+            while i < n and " unwind label " not in s:
+                s += " " + lines[i].strip()
+                i += 1
         # strip trailing comment
         if " ; " in s and not s.startswith("call") and '"' not in s:
             s = s.split(" ; ")[0]
